@@ -199,6 +199,11 @@ def run(model, rep, tier):
            '' if okd else 'duplicates are not reported under `more than one tag of the class`', engine='flow')
     # ---- templates
     _templates(model, rep, mod, ci, gen)
+    # positions printed in the tags: conversions apply the lattice matrices from the left (row-stacked vectors times a matrix
+    # apply its transpose, which differs for every non-cubic cell)
+    from ._common import rotations_from_left
+    rotations_from_left(model, rep, [('OnsagerCalc', 'Interstitial.generatetags'), ('OnsagerCalc', 'VacancyMediated.generatetags')],
+                        min_instances=0)
     # ---- stale loop variables
     for name in ('generatetags', 'tags2preene', 'loadhdf5'):
         fn = ci.methods[name]
